@@ -74,3 +74,5 @@ def run(ctx):
                             "non-trivial = pairs of completed runs whose per-LP final state digests (RNG words included) were compared")
     # refinement of the concrete kernel to the abstract global Time Warp machine of the glue theorems, checked on small runs
     runlib.tw_matrix(ctx, 12, 400, salt=9)
+    # LPs without a state pointer whose only rollbackable state is the library generator (first draw in a speculative event)
+    runlib.stateless_matrix(ctx, 16, 400, salt=9)
